@@ -1,50 +1,51 @@
 (* C02 for MDCPDP -- no dead end, no crash, finished stays finished, step bound. Statements only.
-   Notation as in C01_mdcpdp.v: MDCPDP exact F = the model under the repairs F; [as_is] is good on single-depot
-   instances, [repaired] on all. *)
+   Notation as in C01_mdcpdp.v: the running code is [repaired] (defects recorded as fixed in known_findings.json);
+   the [as_is] statements at the end are history. *)
 From Coq Require Import ZArith List Bool.
 From RL4CO Require Import Base.Num Base.EnvSig Spec.MultiDepotPD Env.MDCPDP Env.MDCPDPDefs Env.MDCPDPProofs Env.MDCPDPRefuted.
 Import ListNotations.
 Open Scope Z_scope.
 
 (* every state reached by admitted actions (the last one possibly finishing the row) offers at least one action,
-   provided every vehicle can carry at least one parcel *)
+   provided every vehicle can carry at least one parcel; any documented capacity format, any start depot *)
 Theorem C02_mdcpdp_no_dead_end :
-  forall (F : mdfix) (i : md_inst) (acts : list nat),
-    md_wfb i = true -> md_good F i = true -> md_solvableb i = true ->
-    adm (E:=MDCPDP exact F) i acts = true ->
-    (forall p q, acts = p ++ q -> q <> [] -> done (MDCPDP exact F) i (run (E:=MDCPDP exact F) i p) = false) ->
-    anyb (mask (MDCPDP exact F) i (run (E:=MDCPDP exact F) i acts)) = true.
-Proof. intros F i acts Hwf Hg Hs. exact (md_no_dead_end F i Hwf Hg acts Hs). Qed.
+  forall (i : md_inst) (acts : list nat),
+    md_wfb i = true -> md_solvableb i = true ->
+    adm (E:=MDCPDP exact repaired) i acts = true ->
+    (forall p q, acts = p ++ q -> q <> [] -> done (MDCPDP exact repaired) i (run (E:=MDCPDP exact repaired) i p) = false) ->
+    anyb (mask (MDCPDP exact repaired) i (run (E:=MDCPDP exact repaired) i acts)) = true.
+Proof. intros i acts Hwf Hs. exact (md_no_dead_end repaired i Hwf (repaired_good i) acts Hs). Qed.
 Print Assumptions C02_mdcpdp_no_dead_end.
 
 (* ... and after the row has finished: exactly its current depot is offered, for any number of padding steps, and the
-   row stays finished (first three conjuncts of the padding theorem, which is stated in full in C04_mdcpdp.v) *)
+   row stays finished *)
 Theorem C02_mdcpdp_finished_rows_keep_a_padding_action :
-  forall (F : mdfix) (i : md_inst) (acts : list nat) (k : nat),
-    md_wfb i = true -> md_good F i = true -> solo i || fx_leg F = true ->
-    adm (E:=MDCPDP exact F) i acts = true ->
-    (forall p q, acts = p ++ q -> q <> [] -> done (MDCPDP exact F) i (run (E:=MDCPDP exact F) i p) = false) ->
-    done (MDCPDP exact F) i (run (E:=MDCPDP exact F) i acts) = true ->
-    let e := depot (run (E:=MDCPDP exact F) i acts) in
-    adm (E:=MDCPDP exact F) i (acts ++ repeat e k) = true /\
-    done (MDCPDP exact F) i (run (E:=MDCPDP exact F) i (acts ++ repeat e k)) = true /\
-    mask (MDCPDP exact F) i (run (E:=MDCPDP exact F) i (acts ++ repeat e k)) = map (fun j => Nat.eqb j e) (seq 0 (ndep i + nloc i)).
+  forall (i : md_inst) (acts : list nat) (k : nat),
+    md_wfb i = true ->
+    adm (E:=MDCPDP exact repaired) i acts = true ->
+    (forall p q, acts = p ++ q -> q <> [] -> done (MDCPDP exact repaired) i (run (E:=MDCPDP exact repaired) i p) = false) ->
+    done (MDCPDP exact repaired) i (run (E:=MDCPDP exact repaired) i acts) = true ->
+    let e := depot (run (E:=MDCPDP exact repaired) i acts) in
+    adm (E:=MDCPDP exact repaired) i (acts ++ repeat e k) = true /\
+    done (MDCPDP exact repaired) i (run (E:=MDCPDP exact repaired) i (acts ++ repeat e k)) = true /\
+    mask (MDCPDP exact repaired) i (run (E:=MDCPDP exact repaired) i (acts ++ repeat e k)) = map (fun j => Nat.eqb j e) (seq 0 (ndep i + nloc i)).
 Proof.
-  intros F i acts k Hwf Hg Hs Ha Hl Hd. destruct (md_padding F i Hwf Hg Hs acts k Ha Hl Hd) as (H1 & H2 & H3 & _). auto.
+  intros i acts k Hwf Ha Hl Hd. destruct (md_padding repaired i Hwf (repaired_good i) (repaired_solo i) acts k Ha Hl Hd) as (H1 & H2 & H3 & _). auto.
 Qed.
 Print Assumptions C02_mdcpdp_finished_rows_keep_a_padding_action.
 
-(* no crash: every tensor index used by the step of an offered action is in range *)
+(* no crash: every tensor index used by the step of an offered action is in range (in particular capacity.gather with
+   the generator's one-column capacity and a random start depot) *)
 Theorem C02_mdcpdp_step_ok :
-  forall (F : mdfix) (i : md_inst) (acts : list nat) (a : nat),
-    md_wfb i = true -> md_good F i = true -> solo i || fx_leg F = true ->
-    adm (E:=MDCPDP exact F) i (acts ++ [a]) = true ->
-    (forall p q, acts ++ [a] = p ++ q -> q <> [] -> done (MDCPDP exact F) i (run (E:=MDCPDP exact F) i p) = false) ->
-    stepok (MDCPDP exact F) i (run (E:=MDCPDP exact F) i acts) a = true.
-Proof. intros F i acts a Hwf Hg Hs. exact (md_step_ok F i Hwf Hg acts a Hs). Qed.
+  forall (i : md_inst) (acts : list nat) (a : nat),
+    md_wfb i = true ->
+    adm (E:=MDCPDP exact repaired) i (acts ++ [a]) = true ->
+    (forall p q, acts ++ [a] = p ++ q -> q <> [] -> done (MDCPDP exact repaired) i (run (E:=MDCPDP exact repaired) i p) = false) ->
+    stepok (MDCPDP exact repaired) i (run (E:=MDCPDP exact repaired) i acts) a = true.
+Proof. intros i acts a Hwf. exact (md_step_ok repaired i Hwf (repaired_good i) acts a (repaired_solo i)). Qed.
 Print Assumptions C02_mdcpdp_step_ok.
 
-(* finished stays finished: for the code as it is and under any repair, any instance, any state, any action *)
+(* finished stays finished: under any set of repairs, any instance, any state, any action *)
 Theorem C02_mdcpdp_done_stable :
   forall (A : arith) (F : mdfix) (i : md_inst) (s : md_st) (a : nat),
     md_done i s = true -> md_done i (md_step A F i s a) = true.
@@ -54,13 +55,13 @@ Print Assumptions C02_mdcpdp_done_stable.
 (* step bound: an episode finishes within (nodes + depots - 1) = customers + 2 * depots - 1 steps
    (every finished episode has exactly that many: each customer once, each depot once, each vehicle but the last home) *)
 Theorem C02_mdcpdp_bound :
-  forall (F : mdfix) (i : md_inst) (acts : list nat),
-    md_wfb i = true -> md_good F i = true ->
-    adm (E:=MDCPDP exact F) i acts = true ->
-    (forall p q, acts = p ++ q -> q <> [] -> done (MDCPDP exact F) i (run (E:=MDCPDP exact F) i p) = false) ->
+  forall (i : md_inst) (acts : list nat),
+    md_wfb i = true ->
+    adm (E:=MDCPDP exact repaired) i acts = true ->
+    (forall p q, acts = p ++ q -> q <> [] -> done (MDCPDP exact repaired) i (run (E:=MDCPDP exact repaired) i p) = false) ->
     (length acts <= nloc i + 2 * ndep i - 1)%nat.
 Proof.
-  intros F i acts Hwf Hg Ha Hl. pose proof (md_bound_ok F i Hwf Hg acts Ha Hl) as H. unfold md_bound, nn in H.
+  intros i acts Hwf Ha Hl. pose proof (md_bound_ok repaired i Hwf (repaired_good i) acts Ha Hl) as H. unfold md_bound, nn in H.
   apply (PeanoNat.Nat.le_trans _ _ _ H). rewrite (PeanoNat.Nat.add_comm (nloc i)). cbn. rewrite PeanoNat.Nat.add_0_r.
   rewrite <- !PeanoNat.Nat.add_assoc. rewrite (PeanoNat.Nat.add_comm (nloc i) (ndep i)). rewrite !PeanoNat.Nat.add_assoc.
   rewrite (PeanoNat.Nat.add_comm (ndep i + ndep i) (nloc i)), PeanoNat.Nat.add_assoc. apply PeanoNat.Nat.le_refl.
@@ -69,22 +70,36 @@ Print Assumptions C02_mdcpdp_bound.
 
 (* the solvability hypothesis is needed: capacity 0 *)
 Theorem C02_mdcpdp_dead_end_without_solvable :
-  exists i acts, md_wfb i = true /\ md_solvableb i = false /\ md_good as_is i = true /\ adm (E:=MDCPDP exact as_is) i acts = true /\
-                 done (MDCPDP exact as_is) i (run (E:=MDCPDP exact as_is) i acts) = false /\
-                 anyb (mask (MDCPDP exact as_is) i (run (E:=MDCPDP exact as_is) i acts)) = false.
-Proof. exact md_dead_end_without_solvable. Qed.
+  exists i acts, md_wfb i = true /\ md_solvableb i = false /\ adm (E:=MDCPDP exact repaired) i acts = true /\
+                 done (MDCPDP exact repaired) i (run (E:=MDCPDP exact repaired) i acts) = false /\
+                 anyb (mask (MDCPDP exact repaired) i (run (E:=MDCPDP exact repaired) i acts)) = false.
+Proof. exact md_dead_end_without_solvable_repaired. Qed.
 Print Assumptions C02_mdcpdp_dead_end_without_solvable.
 
-(* the code as it is with start_mode = "random" and the generator's one-column capacity: the forced first action crashes *)
+(* the same four statements for any subset F of the repairs under [md_good F i] *)
+Theorem C02_mdcpdp_any_repair_set :
+  forall (F : mdfix) (i : md_inst) (acts : list nat),
+    md_wfb i = true -> md_good F i = true ->
+    adm (E:=MDCPDP exact F) i acts = true ->
+    (forall p q, acts = p ++ q -> q <> [] -> done (MDCPDP exact F) i (run (E:=MDCPDP exact F) i p) = false) ->
+    (md_solvableb i = true -> anyb (mask (MDCPDP exact F) i (run (E:=MDCPDP exact F) i acts)) = true) /\
+    (length acts <= ndep i + nloc i + ndep i - 1)%nat.
+Proof.
+  intros F i acts Hwf Hg Ha Hl. split; [intros Hs; exact (md_no_dead_end F i Hwf Hg acts Hs Ha Hl) | exact (md_bound_ok F i Hwf Hg acts Ha Hl)].
+Qed.
+Print Assumptions C02_mdcpdp_any_repair_set.
+
+(* HISTORY ([as_is]): start_mode = "random" with the generator's one-column capacity: the forced first action crashed *)
 Theorem C02_mdcpdp_refuted_random_start_crash :
   exists i, md_wfb i = true /\ md_solvableb i = true /\ offered (E:=MDCPDP exact as_is) i (reset (MDCPDP exact as_is) i) 0 = true /\
             stepok (MDCPDP exact as_is) i (reset (MDCPDP exact as_is) i) 0 = false.
 Proof. exact md_step_ok_refuted_random_start. Qed.
 Print Assumptions C02_mdcpdp_refuted_random_start_crash.
 
-(* non-vacuity / tightness: a finished episode of exactly the bound's length (4 customers, 2 depots: 7 steps) *)
+(* non-vacuity / tightness: generator format, random start depot 1: a finished episode of exactly the bound's length
+   (4 customers, 2 depots: 7 steps) *)
 Example C02_mdcpdp_bound_tight :
-  let i := inst 2 4 [2; 1] (unit_dist 6) 0 in
+  let i := with_start (inst 2 4 [2] (unit_dist 6) 0) 1 in
   let acts := [0; 2; 3; 4; 5; 0; 1]%nat in
   md_wfb i = true /\ md_solvableb i = true /\ adm (E:=MDCPDP exact repaired) i acts = true /\ liveb repaired i acts = true /\
   done (MDCPDP exact repaired) i (run (E:=MDCPDP exact repaired) i acts) = true /\ length acts = (nloc i + 2 * ndep i - 1)%nat.
